@@ -30,6 +30,8 @@ type loP struct {
 	Dest      string // "" advertised | absent | foreign
 	Prefix    string // "" std | default | odd
 	Decl      string
+	Lex       string // purely lexical serialisation variant (lexVals)
+	Wire      string // legal wire-level variant: "" | b64-76 | b64-64crlf | ctype-charset (POST) | flate-stored | flate-flushed | flate-chunks (Redirect)
 	Lookup    string // GetEntityByID fault: "" | error | error-ctx-deadline | error-ctx-canceled
 }
 
@@ -184,7 +186,13 @@ func loBuild(p loP) (*world.World, *http.Request, *loTruth) {
 	if p.Payload == "root-authn" {
 		tree.Local = "AuthnRequest"
 	}
-	doc := tree.Render(xt.Style{Prefixes: p.Prefix, Decl: p.Decl == "yes"})
+	lst := xt.Style{Prefixes: p.Prefix, Decl: p.Decl == "yes"}
+	lexStyle(&lst, p.Lex)
+	doc := tree.Render(lst)
+	post := p.Transport == "" || p.Transport == "post"
+	if p.Wire != "" && (strings.HasPrefix(p.Wire, "flate-") == post || p.Transport == "post-deflate") {
+		t.Conformant = false // the variant does not belong to this binding: the combination is not judged for acceptance
+	}
 	switch p.Payload {
 	case "ill-formed":
 		doc = doc[:len(doc)-4]
@@ -210,11 +218,20 @@ func loBuild(p loP) (*world.World, *http.Request, *loTruth) {
 		if p.Payload == "bad-base64" {
 			b64 = "***" + b64
 		}
+		ctype := "application/x-www-form-urlencoded"
+		switch p.Wire {
+		case "b64-76":
+			b64 = strings.TrimRight(wrapN(b64, 76), "\n")
+		case "b64-64crlf":
+			b64 = strings.ReplaceAll(wrapN(b64, 64), "\n", "\r\n")
+		case "ctype-charset":
+			ctype += "; charset=UTF-8"
+		}
 		f := url.Values{"SAMLRequest": {b64}}
 		if relay != "" {
 			f.Set("RelayState", relay)
 		}
-		req = world.NewRequest("POST", host, path, nil, "application/x-www-form-urlencoded", []byte(f.Encode()))
+		req = world.NewRequest("POST", host, path, nil, ctype, []byte(f.Encode()))
 	case "post-deflate":
 		b64 := base64.StdEncoding.EncodeToString(msg.Deflate(doc))
 		if p.Payload == "bad-base64" {
@@ -227,6 +244,9 @@ func loBuild(p loP) (*world.World, *http.Request, *loTruth) {
 		req = world.NewRequest("POST", host, path, nil, "application/x-www-form-urlencoded", []byte(f.Encode()))
 	case "redirect-enc", "redirect":
 		r := msg.Redirect{XML: doc, RelayState: relay}
+		if strings.HasPrefix(p.Wire, "flate-") {
+			r.Flate = strings.TrimPrefix(p.Wire, "flate-")
+		}
 		if p.Transport == "redirect-enc" {
 			r.Encoding = msg.EncDeflate
 		}
@@ -273,6 +293,10 @@ func (p *loP) set(name, val string) {
 		p.Prefix = val
 	case "Decl":
 		p.Decl = val
+	case "Lex":
+		p.Lex = val
+	case "Wire":
+		p.Wire = val
 	case "Lookup":
 		p.Lookup = val
 	default:
